@@ -144,6 +144,9 @@ class NodeTimeValues:
         TODO - is it clear why we omit the first element of the grid?
         """
         rowmax = self.grid_data[:, 1:].max(axis=1)
+        # a row can have all of its mass at the first grid point
+        empty = rowmax == (0.0 if self.probability_space == LIN_GRID else -np.inf)
+        rowmax[empty] = self.grid_data[empty, 0]
         if self.probability_space == LIN_GRID:
             self.grid_data = self.grid_data / rowmax[:, np.newaxis]
         elif self.probability_space == LOG_GRID:
